@@ -207,7 +207,11 @@ def install(reg: Registry):
                 is_VRef(VarE(tt, nn)),
                 z3.And(hs.cls(v_a(VarE(tt, nn))) == CLS_DICT, hs.has(v_a(VarE(tt, nn)), K('type')),
                        v_a(VarE(tt, nn)) < hs.alloc, v_a(VarE(tt, nn)) >= 0)), [VarE(tt, nn)])),
-        ]
+            # wf_lang: a variable used in an expression is declared (for the types it is evaluated on: uniform resolution)
+            ('variables-declared', FA([eq], z3.Implies(etype(hs, eq) == S('variable'), is_VRef(VarAny(ename(hs, eq)))), [etype(hs, eq)])),
+            ('langspec', z3.And(hs.cls(hs.f('_lang_spec', c.lang_graph)) == CLS_DICT, hs.has(hs.f('_lang_spec', c.lang_graph), K('assets')),
+                                is_VRef(hs.val(hs.f('_lang_spec', c.lang_graph), K('assets'))), hs.cls(spec_assets(hs, c.lang_graph)) == CLS_LIST)),
+        ] + [('var.' + nm, f) for nm, f in var_axioms(hs, c.lang_graph) if not nm.endswith('.def')]
 
     def old_unchanged(o, h):
         """every array agrees with the pre-state on every object allocated in the pre-state (one trigger per array)"""
@@ -335,14 +339,84 @@ def install(reg: Registry):
                      call_lemmas={'_get_variable_for_asset_type_by_name': lambda c: [
                          ('uniform-resolution', VarE(c.asset_type, c.variable_name) == VarAny(c.variable_name)),
                          ('resolved', c.res == v_a(VarAny(c.variable_name)))]},
+                     defs=lambda c: [f for nm, f in var_axioms(spec_heap(c.old.schema), c.lang_graph) if nm.endswith('.def')],
                      props=('C01',), no_merge=True,
                      note='deductive for expressions without the transitive operator (requires NoTrans); the transitive arm is decided by '
                           'the bounded floor of C01'))
 
 
+SpecAsset = z3.Function('SpecAsset', Str, Val)             # the asset record of the language specification with that name (None if absent)
+VarDecl = z3.Function('VarDecl', Addr, Str, Val)           # the `let` record named v of an asset record (None if the asset does not declare v)
+sdepth = z3.Function('sdepth', Addr, z3.IntSort())         # ghost: height of an asset record in the (acyclic) inheritance forest
+
+
+def spec_assets(h: H, LGr):
+    return v_a(h.val(h.f('_lang_spec', LGr), K('assets')))
+
+
+def var_axioms(h: H, LGr):
+    """Definitions over the specification heap (wf_lang: asset names unique, variable names unique per asset, inheritance
+    acyclic — the ghost height sdepth):  SpecAsset / VarDecl by membership + key, and VarE by recursion up the chain:
+        VarE(T, v) = stepExpression of the nearest declaration of v on the path T, super(T), super(super(T)), ...   (None if none)"""
+    a, d = A('a!va'), A('d!va')
+    nm, v = z3.Const('nm!va', Str), z3.Const('v!va', Str)
+    AL = spec_assets(h, LGr)
+    VL = lambda q: v_a(h.val(q, K('variables')))
+    sa = SpecAsset(nm)
+    sup_ = h.val(v_a(sa), K('superAsset'))
+    decl = VarDecl(v_a(sa), v)
+    return [
+        ('SpecAsset.member', FA([a], z3.Implies(h.cnt(AL, a) > 0, SpecAsset(v_s(h.val(a, K('name')))) == VRef(a)), [h.cnt(AL, a)])),
+        ('SpecAsset.range', FA([nm], z3.Or(is_VNone(sa), z3.And(is_VRef(sa), h.cnt(AL, v_a(sa)) > 0, v_s(h.val(v_a(sa), K('name'))) == nm)), [SpecAsset(nm)])),
+        ('VarDecl.member', FA([a, d], z3.Implies(z3.And(h.cnt(AL, a) > 0, h.cnt(VL(a), d) > 0), VarDecl(a, v_s(h.val(d, K('name')))) == VRef(d)),
+                              [h.cnt(VL(a), d)])),
+        ('VarDecl.range', FA([a, v], z3.Or(is_VNone(VarDecl(a, v)), z3.And(is_VRef(VarDecl(a, v)), h.cnt(VL(a), v_a(VarDecl(a, v))) > 0,
+                                                                            v_s(h.val(v_a(VarDecl(a, v)), K('name'))) == v)), [VarDecl(a, v)])),
+        ('VarE.def', FA([nm, v], VarE(nm, v) == z3.If(is_VNone(sa), VNone,
+                                                    z3.If(is_VRef(decl), h.val(v_a(decl), K('stepExpression')),
+                                                          z3.If(is_VStr(sup_), VarE(v_s(sup_), v), VNone))), [VarE(nm, v)])),
+        # acyclic single inheritance among the records: the super asset of a record is a record of smaller height
+        ('sdepth', FA([a], z3.Implies(z3.And(h.cnt(AL, a) > 0, is_VStr(h.val(a, K('superAsset')))),
+                                      z3.And(is_VRef(SpecAsset(v_s(h.val(a, K('superAsset'))))), sdepth(a) > sdepth(v_a(SpecAsset(v_s(h.val(a, K('superAsset')))))),
+                                             sdepth(v_a(SpecAsset(v_s(h.val(a, K('superAsset')))))) >= 0)), [h.cnt(AL, a)])),
+        ('records', FA([a], z3.Implies(h.cnt(AL, a) > 0, z3.And(
+            h.cls(a) == CLS_DICT, h.has(a, K('name')), is_VStr(h.val(a, K('name'))), h.has(a, K('variables')), is_VRef(h.val(a, K('variables'))),
+            h.cls(VL(a)) == CLS_LIST, h.has(a, K('superAsset')), z3.Or(is_VNone(h.val(a, K('superAsset'))), is_VStr(h.val(a, K('superAsset')))),
+            z3.Implies(is_VStr(h.val(a, K('superAsset'))), v_s(h.val(a, K('superAsset'))) != str_const('')), sdepth(a) >= 0, h.size(a) > 0)), [h.cnt(AL, a)])),
+        ('variable-records', FA([a, d], z3.Implies(z3.And(h.cnt(AL, a) > 0, h.cnt(VL(a), d) > 0), z3.And(
+            h.cls(d) == CLS_DICT, h.has(d, K('name')), is_VStr(h.val(d, K('name'))), h.has(d, K('stepExpression')),
+            is_VRef(h.val(d, K('stepExpression'))), h.cls(v_a(h.val(d, K('stepExpression')))) == CLS_DICT,
+            h.has(v_a(h.val(d, K('stepExpression'))), K('type')), h.size(d) > 0, h.size(v_a(h.val(d, K('stepExpression')))) > 0)), [h.cnt(VL(a), d)])),
+    ]
+
+
 def install_variable_lookup(reg):
+    def HS(c): return spec_heap(c.old.schema)
+
+    def requires(c):
+        hs = HS(c)
+        return [('HS.agree', agree(hs, c.old, both=True)), ('HS.closed', z3.And(*heap_closed(hs))), ('HS.objects', z3.And(c.self >= 0, c.self < hs.alloc)),
+                ('langspec', z3.And(hs.cls(hs.f('_lang_spec', c.self)) == CLS_DICT, hs.has(hs.f('_lang_spec', c.self), K('assets')),
+                                    is_VRef(hs.val(hs.f('_lang_spec', c.self), K('assets'))), hs.cls(spec_assets(hs, c.self)) == CLS_LIST))] + \
+               [(nm, f) for nm, f in var_axioms(hs, c.self) if not nm.endswith('.def')]
+
+    def defs(c):
+        return [f for nm, f in var_axioms(HS(c), c.self) if nm.endswith('.def')]
+
+    def assets_inv(c: LCtx):
+        hs = HS(c)
+        a = A('a!vi')
+        return [('not-yet', FA([a], z3.Implies(z3.Select(c.done, VRef(a)) > 0, v_s(hs.val(a, K('name'))) != c.asset_type), [z3.Select(c.done, VRef(a))]))]
+
+    def vars_inv(c: LCtx):
+        hs = HS(c)
+        d = A('d!vi')
+        return [('not-yet', FA([d], z3.Implies(z3.Select(c.done, VRef(d)) > 0, v_s(hs.val(d, K('name'))) != c.variable_name), [z3.Select(c.done, VRef(d))]))]
+
     reg.add(Contract(ML + ':LanguageGraph._get_variable_for_asset_type_by_name', {'self': Obj(LG), 'asset_type': T.str, 'variable_name': T.str},
-                     returns=EXPR, trusted=True,
-                     ensures=lambda c: [('def', c.res == v_a(VarE(c.asset_type, c.variable_name))), ('found', is_VRef(VarE(c.asset_type, c.variable_name)))],
-                     note='TEMPORARILY ASSUMED: VarE(T, v) is what the lookup returns (nearest declaration up the inheritance chain); '
-                          'wf_lang: every variable used in an expression is declared'))
+                     returns=EXPR, pure=True, requires=requires, defs=defs,
+                     ensures=lambda c: [('def', VRef(c.res) == VarE(c.asset_type, c.variable_name)), ('non-empty', c.h.size(c.res) > 0)],
+                     raises={'LanguageGraphException': lambda c: is_VNone(VarE(c.asset_type, c.variable_name))},
+                     decreases=lambda c: z3.If(is_VRef(SpecAsset(c.asset_type)), sdepth(v_a(SpecAsset(c.asset_type))) + 1, 0),
+                     props=('C01',),
+                     note='VarE(T, v): the nearest declaration of v up the inheritance chain of T in the language specification (wf_lang: unique names, acyclic)'))
